@@ -221,6 +221,12 @@ class VariantJob:
             raise
 
     def _run_case_symbolic(self, label, ctx, scal, sargs, views, flat_views, flat_coords, scalar_result, res):
+        with S.time_budget():
+            ref, got, oc, refv = self._execute(ctx, scal, sargs, views, flat_views, flat_coords, scalar_result)
+        return self._decide(label, ctx, scal, sargs, views, flat_views, flat_coords, scalar_result, res, ref, got, oc, refv)
+
+    def _execute(self, ctx, scal, sargs, views, flat_views, flat_coords, scalar_result):
+        oc = refv = None
         if self.spec is not None:
             ref = self.spec(LIB, scal, views)
             if not scalar_result:
@@ -238,6 +244,9 @@ class VariantJob:
                 for f in OPS.result_rep(oc, refv):
                     ctx.hyp(f, pre=True)
         got = self.fn(LIB, *sargs, *flat_coords)
+        return ref, got, oc, refv
+
+    def _decide(self, label, ctx, scal, sargs, views, flat_views, flat_coords, scalar_result, res, ref, got, oc, refv):
         goals = []
         if scalar_result:
             goals += value_goals(got, ref)
